@@ -446,4 +446,50 @@ def rule_rules(ctx) -> RuleResult:
     return res
 
 
-RULES = [rule_pure, rule_commit, rule_rules]
+def rule_stale(ctx) -> RuleResult:
+    res = RuleResult(
+        "C15.STALE",
+        "C15",
+        "replacing the form (InputFile.ui_json setter) derives the validation rules from the new form: what it stores in "
+        "a field of self is not computed from that field's previous content with precedence over the rules inferred from "
+        "the new form (rules inferred for an earlier form must not decide the verdict on the current one)",
+        floor=1,
+    )
+    p = ctx.p
+    IF = p.cls("InputFile")
+    st = IF.props["ui_json"].setter
+    sn = st.self_name or "self"
+    inferred = {n.targets[0].id for n in ast.walk(st.node) if isinstance(n, ast.Assign) and isinstance(n.targets[0], ast.Name)
+                and any(isinstance(c, ast.Call) and getattr(c.func, "attr", None) == "infer_validations" for c in ast.walk(n.value))}
+    if not inferred:
+        raise AnalysisError("InputFile.ui_json setter: call to infer_validations not found")
+    # loop variables bound from the inferred table
+    for lp in ast.walk(st.node):
+        if isinstance(lp, ast.For) and any(isinstance(x, ast.Name) and x.id in inferred for x in ast.walk(lp.iter)):
+            names = [t.id for t in ast.walk(lp.target) if isinstance(t, ast.Name)]
+            new_rules = names[-1] if names else None
+            stores = [n for n in ast.walk(lp) if isinstance(n, ast.Assign) and isinstance(n.targets[0], ast.Subscript) and unparse(n.targets[0].value).startswith(f"{sn}.")]
+            for stt in stores:
+                field = unparse(stt.targets[0].value)
+                # value's definition(s) inside the loop
+                defs = [n.value for n in ast.walk(lp) if isinstance(n, ast.Assign) and isinstance(n.targets[0], ast.Name) and n.targets[0].id == unparse(stt.value)]
+                carried = False
+                for d in defs + [stt.value]:
+                    if isinstance(d, ast.Dict) and None in d.keys:
+                        spreads = [unparse(v) for k, v in zip(d.keys, d.values) if k is None]
+                        # later spreads win: previous content of the same field placed after the new rules
+                        idx_old = [i for i, sp in enumerate(spreads) if sp.startswith(field)]
+                        idx_new = [i for i, sp in enumerate(spreads) if sp == new_rules]
+                        if idx_old and idx_new and max(idx_old) > min(idx_new):
+                            carried = True
+                    elif any(isinstance(c, ast.Call) and getattr(c.func, "attr", None) == "update" and any(unparse(a).startswith(field) for a in c.args) for c in ast.walk(d)):
+                        carried = True
+                res.inst(f"InputFile.ui_json setter: {field}[...] = {unparse(stt.value)[:30]} (rules from the new form win)", nontrivial=True, ok=not carried)
+                if carried:
+                    res.find("InputFile", "ui_json", f"previous content of {field} overrides the rules inferred from the new form", f"{st.module.relpath}:{stt.lineno}",
+                             f"{field}[key] keeps what an earlier form put there (the setter cannot tell inferred rules from user-supplied ones): after the form of "
+                             "a parameter is replaced, values are still judged by the old form's types / association / optional rules")
+    return res
+
+
+RULES = [rule_pure, rule_commit, rule_rules, rule_stale]
